@@ -112,8 +112,11 @@ func checkC18(w *World, tier string) *Report {
 		"R18.3 the DELTA functions of tracers/native embed the reference with insertions that are dead when no Aspect event was received (guards on fork-only fields, loops over fork-only fields, zero addends); R18.4 fork-only fields of serialised frames are omitted from JSON when empty. Output when Aspects are involved is C19's subject."
 	vmScope := map[string]bool{"(*EVMInterpreter).Run": true, "(*EVM).Call": true, "(*EVM).CallCode": true, "(*EVM).DelegateCall": true, "(*EVM).StaticCall": true,
 		"(*EVM).create": true, "(*EVM).Create": true, "(*EVM).Create2": true, "opSelfdestruct": true, "opSelfdestruct6780": true, "opCall": true, "opCallCode": true, "opDelegateCall": true, "opStaticCall": true, "opCreate": true, "opCreate2": true,
-		"NewEVM": true, "NewEVMInterpreter": true}
-	s.cloneRule(r, "R18.1", pkVM, func(n string, pr *PairResult) bool { return vmScope[n] })
+		"NewEVM": true, "NewEVMInterpreter": true,
+		// what tracers ask the vm at CaptureStart: the active precompile list, filled by the package initialiser
+		"ActivePrecompiles": true, "init#1": true}
+	s.cloneRule(r, "R18.1", pkVM, func(n string, pr *PairResult) bool { return vmScope[n] || strings.HasPrefix(n, "init#") })
+	r.Explanation += " The clone set of R18.1 includes ActivePrecompiles and the package initialisers that fill the precompile address lists (tracers ask for them at CaptureStart). The SSA comparison prints the collection of every range loop (a loop over another map is another loop)."
 	for _, pair := range []int{pkTracers, pkLogger, pkNative} {
 		s.cloneRule(r, "R18.1", pair, nil)
 		missingRule(s, r, "R18.1", pair)
